@@ -12,7 +12,7 @@ keys:    hex of UTF-8 (`-` = "")        pairs: `k=v;k=v` (`.` = empty list)
   pop <k> | popitem | setdefault <k> <v> | clear | insert <int> <k> <v>
   push <v> | pull | gulp <v> | spew
   setClock <0|1> <int|n> | attach <0|1|n>
-  region <D11|D11e>                      → true|false  (for the operations since `reset`)
+  region <D11e>                          → true|false  (for the operations since `reset`)
 
 reply:  `<out> | <stamp> | <keys> | <items> | <deck> | <len>`
 -/
@@ -125,7 +125,6 @@ def parseOp : List String → Option Op
 def step (s : St) (line : String) : St × String :=
   match words line with
   | ["reset"] => ({ w := init, ops := [] }, "ok")
-  | ["region", "D11"] => (s, toString (regionD11 s.ops.reverse))
   | ["region", "D11e"] => (s, toString (regionD11e s.ops.reverse))
   | ws =>
     match parseOp ws with
